@@ -259,7 +259,7 @@ Section Resume.
     resume hdrdec k ct o roots file faults = inr (e, dv) -> err_total e.
   Proof.
     unfold resume. intros H.
-    destruct (read_header hdrdec default_maxh file) as [[[[rs ver] rest] used]|e'] eqn:E;
+    destruct (read_header hdrdec (w_maxh o) file) as [[[[rs ver] rest] used]|e'] eqn:E;
       [|inversion H; subst; eapply read_header_err_total; eassumption].
     destruct (negb _); [inversion H; et|].
     match type of H with context [match ?p with Ok _ => _ | Err _ => _ end] => destruct p as [hin|e'] eqn:Ep end.
@@ -267,7 +267,7 @@ Section Resume.
         destruct (w_v1 o); [discriminate|]. destruct (negb ct); [inversion Ep; et|].
         destruct (read_v2hdr _) as [[h r]|]; [|discriminate].
         destruct (negb _); inversion Ep; et. }
-    destruct (read_header hdrdec (w_maxh o) _) as [[[[hroots hver] rest'] used']|e'] eqn:E2.
+    destruct (read_header hdrdec (w_maxh o) (drop (data_base o) file)) as [[[[hroots hver] rest'] used']|e'] eqn:E2.
     2:{ apply read_header_err_total in E2. destruct E2 as (E2a & E2b).
         destruct e'; inversion H; subst; try et; exfalso; ((apply E2a; reflexivity) || (apply E2b; reflexivity)). }
     destruct (negb (header_matches hroots hver roots)); [inversion H; et|].
@@ -285,23 +285,47 @@ Section Resume.
   Proof.
     intros Hh. unfold tot_resume. rewrite allocs_panic_false.
     2:{ eapply Forall_weaken; [|apply resume_allocs_bound]. cbv beta.
-        unfold default_maxh, max_digest_alloc, go_max_alloc in *. intros n [H|[H|H]]; lia. }
+        unfold max_digest_alloc, go_max_alloc in *. intros n [H|H]; lia. }
     destruct (resume hdrdec KBlockstore true o roots file []) as [st|[e dv]] eqn:E; [left; reflexivity|].
     right. exists e. split; [reflexivity|]. eapply resume_err_total; eassumption.
   Qed.
 End Resume.
 
-(* ---- Resume's version probe ignores the configured header limit ------------------------------------------ *)
-(* OpenReadWrite(.., MaxAllowedHeaderSize(1 KiB)) on four bytes that declare a 24 MiB header: ResumableVersion
-   calls ReadVersion WITHOUT the caller's options, so the buffer is requested under the 32 MiB default and
-   the answer is unexpected EOF, not ErrHeaderTooLarge *)
+(* ---- Resume's version probe obeys the configured header limit (repaired) ------------------------------------ *)
+(* OpenReadWrite(.., MaxAllowedHeaderSize(1 KiB)) on four bytes that declare a 24 MiB header: the first
+   header read (store.ResumableVersion -> ReadVersion, now with the caller's options) answers
+   ErrHeaderTooLarge and requests nothing.  Before notes/fixes/C09-resume-version-probe-limit.patch it ran
+   under the 32 MiB default: 24 MiB were requested and the answer was unexpected EOF. *)
 Definition probe_wopts : wopts := mkwopts 0 0 1025 false 2048 false false false false 1024 8388608.
 Definition probe_file : bytes := put_uv 25165824.
 Lemma resume_probe_over_limit :
-  resume_allocs dec_header_canon KBlockstore true probe_wopts [] probe_file [] = [25165824] /\
-  tot_resume dec_header_canon probe_wopts [] probe_file = TErr EUnexpectedEof /\
-  w_maxh probe_wopts < 25165824.
+  resume_allocs dec_header_canon KBlockstore true probe_wopts [] probe_file [] = [] /\
+  tot_resume dec_header_canon probe_wopts [] probe_file = TErr EHeaderTooLarge.
 Proof. vm_compute. repeat split; reflexivity. Qed.
+
+(* for EVERY input: a first header that declares more than the configured limit is refused with the
+   too-large error and nothing is requested *)
+Section ResumeProbe.
+  Variable hdrdec : bytes -> option (list bytes * N).
+  Theorem resume_first_header_over_limit k ct o roots l rest faults :
+    l < two63 -> w_maxh o < l ->
+    resume_allocs hdrdec k ct o roots (put_uv l ++ rest) faults = [] /\
+    exists dv, resume hdrdec k ct o roots (put_uv l ++ rest) faults = inr (EHeaderTooLarge, dv).
+  Proof.
+    intros H63 Hl.
+    assert (Hrd : ld_read false (w_maxh o) (put_uv l ++ rest) = Err ESectionTooLarge).
+    { unfold ld_read, ld_read_size. rewrite read_uv_put_uv by exact H63. rewrite andb_false_r.
+      replace (w_maxh o <? l) with true by lia. reflexivity. }
+    assert (Hal : ld_read_allocs false (w_maxh o) (put_uv l ++ rest) = []).
+    { unfold ld_read_allocs, ld_read_size. rewrite read_uv_put_uv by exact H63. rewrite andb_false_r.
+      replace (w_maxh o <? l) with true by lia. reflexivity. }
+    assert (Hh : read_header hdrdec (w_maxh o) (put_uv l ++ rest) = Err EHeaderTooLarge)
+      by (unfold read_header; rewrite Hrd; reflexivity).
+    split.
+    - unfold resume_allocs. rewrite Hal, Hh. reflexivity.
+    - unfold resume. rewrite Hh. eexists. reflexivity.
+  Qed.
+End ResumeProbe.
 
 (* ---- a limit above what the runtime can allocate: the guard is needed -------------------------------- *)
 (* MaxAllowedSectionSize(1<<62) and a section that declares 2^61 bytes: make() itself panics *)
